@@ -11,8 +11,8 @@ pub struct TcpHeader {
     dstport: u16,     // Destination port number
     sequence: u32,    // Sequence number
     ack: u32,         // Acknowledgment number
-    data_off: u8,     // Data offset
-    flags: u16,       // Flags for TCP
+    data_off: u8,     // Data offset (4 bits)
+    flags: u16,       // Reserved bits and control flags (12 bits)
     window_size: u16, // Window size
     checksum: u16,    // Checksum for integrity
     urgent: u16,      // Urgent pointer
@@ -25,9 +25,11 @@ impl From<&TcpHeader> for Vec<u8> {
         bytes.extend_from_slice(&hdr.dstport.to_be_bytes());
         bytes.extend_from_slice(&hdr.sequence.to_be_bytes());
         bytes.extend_from_slice(&hdr.ack.to_be_bytes());
-        bytes.extend_from_slice(&hdr.flags.to_be_bytes());
+        let off_flags: u16 = ((hdr.data_off as u16 & 0x0F) << 12) | (hdr.flags & 0x0FFF);
+        bytes.extend_from_slice(&off_flags.to_be_bytes());
         bytes.extend_from_slice(&hdr.window_size.to_be_bytes());
         bytes.extend_from_slice(&hdr.checksum.to_be_bytes());
+        bytes.extend_from_slice(&hdr.urgent.to_be_bytes());
         bytes
     }
 }
@@ -36,7 +38,8 @@ impl From<&TcpHeader> for Vec<u8> {
 pub struct Tcp {
     header: RefCell<TcpHeader>,             // Header of the TCP packet
     pub rawdata: RefCell<Rc<Vec<u8>>>,      // Raw data of the entire packet
-    pub offset: usize,                      // Offset of the TCP header
+    start: usize,                           // Offset of the TCP header
+    pub offset: usize,                      // Offset of the TCP payload
     pub inner: RefCell<Option<Rc<Object>>>, // Inner packet
 }
 
@@ -59,8 +62,9 @@ impl From<&Tcp> for Vec<u8> {
     fn from(tcp: &Tcp) -> Self {
         let header = tcp.header.borrow().clone();
         let mut bytes: Vec<u8> = (&header).into();
+        // options and payload are kept as captured
         let data = tcp.rawdata.borrow().clone();
-        bytes.extend_from_slice(&data[tcp.offset..]);
+        bytes.extend_from_slice(&data[tcp.start + TCP_HEADER_SIZE..]);
         bytes
     }
 }
@@ -85,7 +89,14 @@ impl Tcp {
             rawdata[off + 11],
         ]);
         let data_off = rawdata[off + 12] >> 4;
-        let flags = u16::from_be_bytes([rawdata[off + 12], rawdata[off + 13]]);
+        // The data offset must cover the fixed header and, together with
+        // the options, lie within the captured bytes.
+        let header_len = data_off as usize * 4;
+        if header_len < TCP_HEADER_SIZE || rawdata.len() < off + header_len {
+            return Err(PacketError::InvalidLength(rawdata.len()));
+        }
+        // the upper four bits of this word are the data offset
+        let flags = u16::from_be_bytes([rawdata[off + 12], rawdata[off + 13]]) & 0x0FFF;
         let window_size = u16::from_be_bytes([rawdata[off + 14], rawdata[off + 15]]);
         let checksum = u16::from_be_bytes([rawdata[off + 16], rawdata[off + 17]]);
         let urgent = u16::from_be_bytes([rawdata[off + 18], rawdata[off + 19]]);
@@ -105,7 +116,8 @@ impl Tcp {
         Ok(Self {
             header,
             rawdata: RefCell::new(rawdata),
-            offset: off + TCP_HEADER_SIZE,
+            start: off,
+            offset: off + header_len,
             inner: RefCell::new(None),
         })
     }
@@ -189,7 +201,7 @@ impl Tcp {
     pub fn set_data_off(&self, data_off: Rc<Object>) -> Result<(), String> {
         match data_off.as_ref() {
             Object::Integer(data_off_value) => {
-                self.header.borrow_mut().data_off = *data_off_value as u8;
+                self.header.borrow_mut().data_off = (*data_off_value as u8) & 0x0F;
                 Ok(())
             }
             _ => Err("Invalid value for data offset".to_string()),
@@ -199,7 +211,7 @@ impl Tcp {
     pub fn set_flags(&self, flags: Rc<Object>) -> Result<(), String> {
         match flags.as_ref() {
             Object::Integer(flags_value) => {
-                self.header.borrow_mut().flags = *flags_value as u16;
+                self.header.borrow_mut().flags = (*flags_value as u16) & 0x0FFF;
                 Ok(())
             }
             _ => Err("Invalid value for flags".to_string()),
